@@ -52,6 +52,7 @@ type Report struct {
 	mu       sync.Mutex
 	classes  map[string]*classRec
 	counters map[string]int64
+	fast     sync.Map // name -> *int64
 	samples  []any
 	notes    []string
 	assume   []string
@@ -128,9 +129,12 @@ func (r *Report) Unspec(n int64)     { atomic.AddInt64(&r.Unspecified, n) }
 
 // Count bumps a named counter reported under coverage.counters.
 func (r *Report) Count(name string, n int64) {
-	r.mu.Lock()
-	r.counters[name] += n
-	r.mu.Unlock()
+	if p, ok := r.fast.Load(name); ok {
+		atomic.AddInt64(p.(*int64), n)
+		return
+	}
+	p, _ := r.fast.LoadOrStore(name, new(int64))
+	atomic.AddInt64(p.(*int64), n)
 }
 
 // Sample records an example case (at most 12 kept).
@@ -284,6 +288,10 @@ func (r *Report) Finish() {
 	for _, k := range known {
 		knownSet[k.Class] = k
 	}
+	r.fast.Range(func(k, v any) bool {
+		r.counters[k.(string)] += atomic.LoadInt64(v.(*int64))
+		return true
+	})
 	r.mu.Lock()
 	classNames := make([]string, 0, len(r.classes))
 	for k := range r.classes {
